@@ -208,7 +208,7 @@ def main():
                     with open(path, "w") as f:
                         json.dump(it[2], f)
                     out.append("--%s=%s" % (it[1], path))
-                elif how == "alt":
+                elif how == "alt" and len(spell.get(it[1], [])) > 1:
                     alt = spell[it[1]][1]
                     out += [alt + "=" + render(it[2])] if alt.startswith("--") else [alt, render(it[2])]
                 else:
